@@ -5,6 +5,9 @@ from props import *  # noqa: F401,F403
 # synchronous-gauge clause at the storage level (Meter::Create*Gauge is compiled out in ABI v1).
 rc_bin("c17_rc", ["harness/c17_observables_gauges.cc"], lib=True)
 rc_bin("c17_race", ["harness/c17_race.cc"], lib=True)
+rc_bin("c17_sched", ["harness/c17_sched.cc"], lib=False,
+       shadow=["api/include/opentelemetry/common/spin_lock_mutex.h"], shadow_globs=METRICS_SHADOW_GLOBS,
+       shadow_srcs_globs=METRICS_SHADOW_SRCS_GLOBS, repo_srcs_globs=METRICS_PLAIN_GLOBS)
 rc_bin("c17_race_tsan", ["harness/c17_race.cc"], lib=True, san="tsan")
 # Thorough tier only: the same harness and a second sanitizer build of the SDK compiled with
 # -DOPENTELEMETRY_ABI_VERSION_NO=2, which adds the end-to-end synchronous-gauge target.
@@ -85,6 +88,7 @@ PROPS["C17"] = dict(
         SC_NOTE,
     ],
     runs=[
+        run("obs-sched", "c17_sched", "obs_sched", "rc", dict(procs=4, cases=20000), dict(procs=8, cases=300000), asan_extra=SCHED_ASAN),
         run("remove-race", "c17_race", "obs_remove_race", "rc", dict(procs=2, cases=150), dict(procs=4, cases=3000), deterministic=False),
         run("remove-race-tsan", "c17_race_tsan", "obs_remove_race", "rc", dict(procs=2, cases=100), dict(procs=4, cases=2000), deterministic=False, replay_bin="c17_race_tsan"),
         run("concurrent-collect", "c17_race", "obs_concurrent_collect", "rc", dict(procs=2, cases=80), dict(procs=4, cases=2000), deterministic=False),
